@@ -1102,7 +1102,7 @@ pub fn gen(seed: u64, thorough: bool) -> Vec<String> {
     let mut specs: Vec<Spec> = vec![];
     let quals = ['F', 'N', 'H'];
     let mets = ['U', 'P'];
-    let scale = if thorough { 12 } else { 1 };
+    let scale = if thorough { 100 } else { 1 };
     let n = Opts { q: 'N', m: 'U', d: 'N' };
 
     for &f in &ALL {
